@@ -28,6 +28,7 @@ struct TermSpec
     int prec = 0;
     int assoc = A_NONE;
     bool typed = false;   // wrapped in typed_term / custom_term with the logging Tok functor
+    bool valueless = false;   // typed_term(..., ftors::create<no_type>{}): its value carries the source point only
 };
 
 struct Sym { bool term; int idx; };   // term idx: 0..T-1 real terms, T = <eof>, T+1 = <error_recovery_token>
